@@ -352,6 +352,7 @@ const (
 	c19EvDupAdd
 	c19EvUpdate
 	c19EvTopology
+	c19EvPreBindThenBound // a pod: add of the still pending pod that already carries the persisted allocation, then the update that sets spec.nodeName
 )
 
 type c19Event struct {
@@ -395,6 +396,13 @@ func (r *c19Restart) deliver(ev c19Event) {
 		n.ResourceVersion = "9"
 		n.Labels["touched"] = "true"
 		r.h.OnUpdate(id.pod, n)
+	case ev.kind == c19EvPreBindThenBound:
+		// the cut lies between PreBind's patch and the moment the binding becomes visible
+		pend := id.pod.DeepCopy()
+		pend.Spec.NodeName = ""
+		pend.ResourceVersion = "1"
+		r.h.OnAdd(pend, true)
+		r.h.OnUpdate(pend, id.pod)
 	default:
 		r.h.OnAdd(id.pod, ev.kind == c19EvAdd)
 	}
@@ -410,6 +418,8 @@ func c19SeqString(objs []*c19Ident, seq []c19Event) string {
 			parts[i] = "add(" + objs[ev.who].spec.Name + ")"
 		case c19EvDupAdd:
 			parts[i] = "add-again(" + objs[ev.who].spec.Name + ")"
+		case c19EvPreBindThenBound:
+			parts[i] = "add-pending-with-allocation+update-bound(" + objs[ev.who].spec.Name + ")"
 		default:
 			parts[i] = "update-same(" + objs[ev.who].spec.Name + ")"
 		}
@@ -727,6 +737,16 @@ func (s *c19Sys) Invariants() (viol []mc.Violation) {
 		}
 		run(base)
 		cfg.res.Count("delivery_permutations", 1)
+		for i := 0; i < n; i++ { // the pod at position i is first seen pending (already carrying its allocation), then bound
+			if id := objs[base[i].who]; !id.spec.Reservation && id.pod != nil && id.pod.Spec.NodeName != "" {
+				seq := append([]c19Event{}, base...)
+				seq[i] = c19Event{c19EvPreBindThenBound, base[i].who}
+				run(seq)
+				if id.holds() {
+					cfg.res.Count("prebind_then_bound_delivery_of_pod_with_allocation", 1)
+				}
+			}
+		}
 		for i := 0; i < n; i++ { // the object added at position i gets one more event at every later position
 			for pos := i + 1; pos <= n; pos++ {
 				for _, kind := range []int{c19EvDupAdd, c19EvUpdate} {
